@@ -6,6 +6,8 @@ F : exhaustive dtype audit and mpmath accuracy checks (fals/C12.py).
 """
 from __future__ import annotations
 
+import os
+
 from maps_corr import mismatch_failure, run_maps_correspondence
 try:
     from fals import C12 as F
@@ -84,6 +86,82 @@ def map_accuracy_case(rep, r: dict) -> None:
                 return
 
 
+_F32_STAT: list = []
+
+
+def f32_case(rep, r: dict) -> None:
+    """"the float32 result of the same simulation agrees with it to float32 round-off": Bmad-X elements (incl. weak
+    strengths), the same float32-representable inputs tracked in float32 and in float64"""
+    import numpy as np
+    import torch
+    import bmadx_corr
+    import elements as E
+    import lattices as LT
+    p, En = r["params"], float(np.float32(r["energy"]))
+    P = np.array(r["particles"], dtype=np.float32).astype(float)
+    q = {k: (float(np.float32(v)) if isinstance(v, float) else v) for k, v in p.items()}
+    out = {}
+    for dtn, dt in (("float32", torch.float32), ("float64", torch.float64)):
+        if q["cls"] == "Dipole":
+            el = bmadx_corr.build_bend(q).to(dt) if dt == torch.float64 else None
+            tt = lambda x: torch.tensor(x, dtype=dt)  # noqa: E731
+            import cheetah
+            el = cheetah.Dipole(length=tt(q["L"]), angle=tt(q["angle"]), dipole_e1=tt(q["e1"]), dipole_e2=tt(q["e2"]), tilt=tt(q["tilt"]),
+                                gap=tt(q["gap"]), gap_exit=tt(q["gapx"]), fringe_integral=tt(q["fint"]), fringe_integral_exit=tt(q["fintx"]),
+                                fringe_at=q["fringe_at"], tracking_method="bmadx", dtype=dt)
+        else:
+            el = E.build(q, dtype=dt)
+        import cheetah
+        b = cheetah.ParticleBeam(torch.tensor(P, dtype=dt), torch.tensor(En, dtype=dt), dtype=dt)
+        out[dtn] = el.track(b).particles.to(torch.float64).numpy()
+    a, b = out["float32"], out["float64"]
+    if not np.all(np.isfinite(b)) or np.abs(b[:, [0, 2]]).max() > 1.0 or np.abs(b[:, [1, 3]]).max() > 0.3:
+        return          # (outside the paraxial regime: over-focused beam)
+    # float32 round-off at the scale of the intermediate quantities of the Bmad-X formulas: momenta are handled as
+    # 1 + pz, sqrt((1+pz)^2 - px^2 - py^2) (scale 1), positions and path lengths as sums of terms of size L
+    L = abs(q.get("L", 0.0))
+    amp = np.abs(P).max(axis=0)
+    scale = np.array([L + amp[0], 1.0, L + amp[2], 1.0, L + amp[4], 1.0])
+    eps = float(np.finfo(np.float32).eps)
+    K = float(os.environ.get("VERIF_F32_K", "64"))
+    err = np.abs(a - b)[:, :6] / (K * eps * scale)
+    _F32_STAT.append(float(np.nanmax(err)) * K)
+    if not np.all(err <= 1.0):
+        i, j = np.unravel_index(int(np.argmax(np.nan_to_num(err, nan=np.inf))), err.shape)
+        weak = "weak" if r.get("weak") else "normal"
+        rep.fail("falsifier", f"C12|float32-vs-float64|{F.COORD[j]}|{E.config_key(p)[0]}(bmadx)|{weak} strength",
+                 f"{p['cls']}(bmadx) ({', '.join(f'{k}={v!r}' for k, v in q.items() if k not in ('cls', 'method'))}) at {En!r} eV: particle {i} "
+                 f"{F.COORD[j]} = {a[i, j]!r} in float32, {b[i, j]!r} in float64 ({err[i, j] * K:.3g} float32 eps x scale)", r)
+
+
+def f32_probe(ctx, n: int) -> None:
+    import bmadx_corr
+    import elements as E
+    import lattices as LT
+    rep, rng = ctx.report, ctx.rng
+    for i in range(n):
+        kind = ["Drift", "Quadrupole", "Dipole"][i % 3]
+        weak = bool(rng.random() < 0.6)
+        if kind == "Dipole":
+            p = bmadx_corr.gen_bend(rng)
+        else:
+            p = E.gen_params(rng, kind, force={"method": "bmadx"})
+            if p["L"] == 0.0:
+                p["L"] = 0.4
+        if weak:
+            for k in ("k1", "angle"):
+                if k in p and not (kind == "Dipole" and k == "k1"):
+                    p[k] = float(p[k]) * 10.0 ** float(-rng.uniform(1.0, 5.0))
+        r = {"kind": "f32_vs_f64", "params": p, "energy": float(E.energy(rng)), "particles": LT.gen_particles(rng, 6).tolist(), "weak": weak}
+        rep.fals_cases += 1
+        rep.count(f"f32-vs-f64:{kind}:{'weak' if weak else 'normal'}")
+        rep.case(("f32", kind, weak), None)
+        try:
+            f32_case(rep, r)
+        except Exception as ex:  # noqa: BLE001
+            rep.count(f"f32:rejected:{type(ex).__name__}")
+
+
 def map_accuracy_probe(ctx, n: int) -> None:
     import elements as E
     import numpy as np
@@ -108,8 +186,11 @@ def run(ctx) -> None:
         mismatch_failure(ctx.report, "C12", p, En, real, model, entry)
     for p, En, real, model, entry in run_maps_correspondence(ctx, "C12", ctx.n(6, 100), force=weak, classes=list(STRENGTHS)):
         mismatch_failure(ctx.report, "C12", p, En, real, model, entry, extra=" [weak-strength sweep]")
+    import bmadx_corr
+    bmadx_corr.report_mismatches(ctx.report, "C12", bmadx_corr.run_bmadx_correspondence(ctx, "C12", ctx.n(10, 200), weak=True))
     if F is not None:
         map_accuracy_probe(ctx, ctx.n(60, 1500))
+        f32_probe(ctx, ctx.n(30, 600))
     if F is not None:
         F.run(ctx)
 
@@ -117,6 +198,8 @@ def run(ctx) -> None:
 def corpus_case(ctx, r: dict) -> None:
     if r.get("kind") == "map_accuracy":
         return map_accuracy_case(ctx.report, r)
+    if r.get("kind") == "f32_vs_f64":
+        return f32_case(ctx.report, r)
     if F is not None and hasattr(F, "corpus_case"):
         F.corpus_case(ctx, r)
 
